@@ -110,6 +110,8 @@ def _constructor_attrs(cls):
                 t = AsymmetricUnit([Element[1]], np.zeros((1, 3)))
             elif cls is SymmetryOperation:
                 t = SymmetryOperation.from_integer_code(16484)
+            elif cls.__name__ == "Molecule":
+                t = cls([Element[1]], np.zeros((1, 3)))
             else:
                 t = None
             _TEMPLATE_ATTRS[cls] = None if t is None else set(vars(t))
@@ -231,11 +233,11 @@ def outcomes_equal(a, b):
 
 def compute_reference(req):
     """Runs in a pristine grandchild (see isolate.RefServer)."""
-    uc, sg, asym, titl, op, A, refdir = req
+    uc, sg, asym, titl, op, A, refdir, box = req
     fn = O.ALL_QUERIES[op][0] if op in O.ALL_QUERIES else O.RAISERS[op]
     FS.install()
     os.makedirs(os.path.join(refdir, "sub"), exist_ok=True)  # inside the run's private tmpfs directory
-    return outcome(fn, Crystal(uc, sg, asym, titl=titl), A, {"dir": refdir}, O.READERS.get(op))
+    return outcome(fn, Crystal(uc, sg, asym, titl=titl), A, {"dir": refdir, "box": box}, O.READERS.get(op))
 
 
 class Sim:
@@ -247,6 +249,7 @@ class Sim:
 
             idseam.install()
         self.ids = ids
+        self.thread_pools = {}
         FS.install()
         FS.reset()
         INJECTOR.reset()
@@ -266,6 +269,7 @@ class Sim:
         self.titl0 = [self.world[0].titl]
         self.kw = [False]  # "keyword" crystals: see ops.KW_QUERIES
         self.held = [[]]  # answers handed out under deferred inspection
+        self.box = [{}]  # objects the handle's caller keeps and passes back in (e.g. a molecule)
         self.repeat = [{}]
         self.last_mut = [None]
         self.last_raise = [None]
@@ -279,7 +283,33 @@ class Sim:
         self.src_class = sources.source_class(source_spec)
         self._log(-1, 0, "source", "ok:" + state_digest(self.world[0]))
 
+    def _ctx(self, hi):
+        """Where this handle's caller works and what objects the caller holds."""
+        d = FS.dir("shared") if self.A.get("shared_dir") else FS.dir("h%d" % hi)
+        return {"dir": d, "box": self.box[hi]}
+
+    def _ref_box(self, hi):
+        """The reference's caller holds equal objects rebuilt by value (never
+        the used side's objects themselves, nor anything cached on them)."""
+        return {k: _value_clone(v) for k, v in self.box[hi].items()}
+
+    def _in_thread(self, k, thunk):
+        """Run `thunk` on caller thread k (0 = this thread). Strictly one call
+        after another: the hand-over between threads is sequential."""
+        if not k:
+            return thunk()
+        import concurrent.futures as cf
+
+        pool = self.thread_pools.get(k)
+        if pool is None:
+            pool = self.thread_pools[k] = cf.ThreadPoolExecutor(max_workers=1, thread_name_prefix="caller%d" % k)
+        self.stats["calls_on_other_caller_threads"] += 1
+        return pool.submit(thunk).result()
+
     def close(self):
+        for pool in self.thread_pools.values():
+            pool.shutdown(wait=True)
+        self.thread_pools = {}
         if self.ref_server is not None:
             self.ref_server.close()
             self.ref_server = None
@@ -288,10 +318,10 @@ class Sim:
     def reference(self, pre, op, fn):
         """Outcome of the same call on the reference model: a crystal freshly
         constructed from (copies of) the cell, space group and asymmetric unit."""
-        uc, sg, asym, titl = pre
+        uc, sg, asym, titl, box = pre
         if self.ref_server is not None:
             try:
-                return self.ref_server.ask((uc, sg, asym, titl, op, self.A, FS.dir("refiso", str(self.n_steps))))
+                return self.ref_server.ask((uc, sg, asym, titl, op, self.A, FS.dir("refiso", str(self.n_steps)), box))
             except Unpicklable:
                 # the state objects cannot travel to another process (then a
                 # Crystal cannot be pickled either): in-process reference
@@ -300,7 +330,7 @@ class Sim:
                 raise HarnessError(str(e))
         # a directory of its own per reference query: a cache keyed by file
         # name must not be able to serve the reference an older file
-        return outcome(fn, Crystal(uc, sg, asym, titl=titl), self.A, {"dir": FS.dir("ref", str(self.n_steps))},
+        return outcome(fn, Crystal(uc, sg, asym, titl=titl), self.A, {"dir": FS.dir("ref", str(self.n_steps)), "box": box},
                        O.READERS.get(op))
 
     # ----------------------------------------------------------------- logging
@@ -352,10 +382,11 @@ class Sim:
             return fb
         if op in O.ALL_QUERIES or op in O.RAISERS:
             fn = O.ALL_QUERIES[op][0] if op in O.ALL_QUERIES else O.RAISERS[op]
-            a = self._check_query(i, hi, op, fn, inject=st.get("inject"), defer=bool(st.get("defer")))
+            a = self._check_query(i, hi, op, fn, inject=st.get("inject"), defer=bool(st.get("defer")),
+                                  thread=int(st.get("thread") or 0))
             fb["raised"] = a[1] if a[0] == "raised" else None
         elif op in O.MUTATORS:
-            self._mutate(i, hi, op, fb, inject=st.get("inject"))
+            self._mutate(i, hi, op, fb, inject=st.get("inject"), thread=int(st.get("thread") or 0))
         elif op in O.FORKS or op in ("reload", "stranger", "stranger_kw", "other"):
             self._fork(i, hi, op)
         elif op in O.DERIVES:
@@ -387,14 +418,14 @@ class Sim:
                     {"other_handle": j, "what": "state" if state_digest(o) != sd else "memo or stored cif_data"},
                 )  # fmt: skip
 
-    def _call_and_hold(self, i, hi, op, fn, pre, S, mask, others):
+    def _call_and_hold(self, i, hi, op, fn, pre, S, mask, others, thread=0):
         """Deferred inspection: the call is made now, its answer is only read
         (normalised) at a later `inspect` step - an answer that was handed out
         must not change afterwards, whatever happens to the crystal. Returns
         None when the call raised (then it is judged at once as usual)."""
         h = self.world[hi]
         try:
-            raw = fn(h, self.A, {"dir": FS.dir("h%d" % hi)})
+            raw = self._in_thread(thread, lambda: fn(h, self.A, self._ctx(hi)))
         except O.Unsupported:
             raise
         except Exception:  # noqa: BLE001
@@ -429,7 +460,7 @@ class Sim:
                 raise Violation("STALE_ANSWER", i, op, hi, detail)
         self._log(i, hi, "inspect", "%d" % len(pending))
 
-    def _check_query(self, i, hi, op, fn, inject=None, defer=False):
+    def _check_query(self, i, hi, op, fn, inject=None, defer=False, thread=0):
         h = self.world[hi]
         S = state_digest(h)
         others = self._others(hi)
@@ -437,15 +468,15 @@ class Sim:
         # the reference is built from the state *before* the call
         # (the name is the one the handle had when it entered the world: no
         # operation of the API renames a crystal)
-        pre = rebuild_state(h, self.stats) + (self.titl0[hi],)
+        pre = rebuild_state(h, self.stats) + (self.titl0[hi], self._ref_box(hi))
         if defer and not inject:
-            held = self._call_and_hold(i, hi, op, fn, pre, S, mask, others)
+            held = self._call_and_hold(i, hi, op, fn, pre, S, mask, others, thread)
             if held is not None:
                 return held
         if inject:
             INJECTOR.arm(inject["target"], inject["nth"], inject["exc"])
         try:
-            a = outcome(fn, h, self.A, {"dir": FS.dir("h%d" % hi)}, O.READERS.get(op))
+            a = self._in_thread(thread, lambda: outcome(fn, h, self.A, self._ctx(hi), O.READERS.get(op)))
         finally:
             fired = INJECTOR.disarm() if inject else False
         if inject:
@@ -501,7 +532,7 @@ class Sim:
             self.last_raise[hi] = op + "!" + a[1]
         return a
 
-    def _mutate(self, i, hi, op, fb, inject=None):
+    def _mutate(self, i, hi, op, fb, inject=None, thread=0):
         h = self.world[hi]
         S = state_digest(h)
         mask = memo_mask(h)
@@ -509,7 +540,7 @@ class Sim:
         if inject:
             INJECTOR.arm(inject["target"], inject["nth"], inject["exc"])
         try:
-            a = outcome(O.MUTATORS[op], h, self.A, {"dir": FS.dir("h%d" % hi)})
+            a = self._in_thread(thread, lambda: outcome(O.MUTATORS[op], h, self.A, self._ctx(hi)))
         finally:
             fired = INJECTOR.disarm() if inject else False
         if inject:
@@ -558,6 +589,7 @@ class Sim:
                 self.titl0.append(new.titl)
                 self.kw.append(False)
                 self.held.append([])
+                self.box.append({})
                 self.repeat.append({})
                 self.last_mut.append(None)
                 self.last_raise.append(None)
@@ -589,6 +621,7 @@ class Sim:
                 self.titl0.append(new.titl)
                 self.kw.append(False)
                 self.held.append([])
+                self.box.append({})
                 self.repeat.append({})
                 self.last_mut.append(None)
                 self.last_raise.append(None)
@@ -609,6 +642,7 @@ class Sim:
                 self.titl0.append(new.titl)
                 self.kw.append(op == "stranger_kw")
                 self.held.append([])
+                self.box.append({})
                 self.repeat.append({})
                 self.last_mut.append(None)
                 self.last_raise.append(None)
@@ -631,6 +665,7 @@ class Sim:
         self.titl0.append(self.titl0[hi])
         self.kw.append(self.kw[hi])
         self.held.append([])
+        self.box.append(dict(self.box[hi]))  # the caller passes the SAME kept objects to the copy
         self.repeat.append(dict(self.repeat[hi]))
         self.last_mut.append(self.last_mut[hi])
         self.last_raise.append(self.last_raise[hi])
@@ -651,7 +686,7 @@ class Sim:
             self._log(i, hi, "drop", "skipped")
             return
         others = [(j, sd, md) for j, sd, md in self._others(len(self.world) - 1)]
-        for lst in (self.world, self.titl0, self.kw, self.held, self.repeat, self.last_mut, self.last_raise, self.armed):
+        for lst in (self.world, self.titl0, self.kw, self.held, self.box, self.repeat, self.last_mut, self.last_raise, self.armed):
             lst.pop()
         gc.collect()
         self.stats["fork:drop"] += 1
@@ -691,6 +726,7 @@ class Sim:
         self.titl0.append(new.titl)
         self.kw.append(False)
         self.held.append([])
+        self.box.append({})
         self.repeat.append({})
         self.last_mut.append(None)
         self.last_raise.append(None)
@@ -810,7 +846,7 @@ def _attribute_child(schedule, vj):
     names = carriers_present(h)
     hi = v.handle % len(sim.world)
     ref = Crystal(*rebuild_state(h), titl=sim.titl0[hi])
-    b = outcome(fn, ref, sim.A, {"dir": FS.dir("ref")})
+    b = outcome(fn, ref, sim.A, {"dir": FS.dir("ref"), "box": sim._ref_box(hi)})
     for size in range(1, len(names) + 1):
         for subset in itertools.combinations(names, size):
             trial = copy.deepcopy(h)
@@ -819,7 +855,7 @@ def _attribute_child(schedule, vj):
                     trial.properties.pop("cif_data", None)
                 else:
                     trial.__dict__.pop(k, None)
-            a = outcome(fn, trial, sim.A, {"dir": FS.dir("attr")})
+            a = outcome(fn, trial, sim.A, {"dir": FS.dir("attr"), "box": dict(sim.box[hi])})
             if outcomes_equal(a, b):
                 return list(subset)
     return []
